@@ -132,6 +132,54 @@ def _run_optimised(shard):
     return r
 
 
+class _FormatSink:
+    """Logging handler that renders every record (so formatting code runs) and throws the text away."""
+    level = 0
+
+    def __init__(self):
+        import logging
+        self._h = logging.Handler(level=1)
+        self._h.emit = lambda record: record.getMessage()
+
+    def handler(self):
+        return self._h
+
+
+def _run_traced(shard):
+    """("__trace__", s): shard s with logging enabled down to the library's TRACE level (the runner otherwise disables
+    logging): what the library logs must not change what it does."""
+    import logging
+    root = logging.getLogger()
+    old_level, old_disable = root.level, logging.root.manager.disable
+    h = _FormatSink().handler()
+    logging.disable(logging.NOTSET)
+    root.addHandler(h)
+    root.setLevel(1)
+    from dalimc.aio import engine
+    engine.KEEP_LOGGING = True
+    try:
+        r = _CHECK.run_shard(shard[1])
+    finally:
+        engine.KEEP_LOGGING = False
+        root.removeHandler(h)
+        root.setLevel(old_level)
+        logging.disable(old_disable)
+    for v in r["violations"]:
+        v["case"] = {"__shard__": jsonable(shard), "__inner__": jsonable(v["case"])}
+        v["message"] = "[logging enabled down to TRACE] " + v["message"]
+    observe(r, "shards_rerun_with_trace_logging", 1)
+    return r
+
+
+def traced_of(chk, tier):
+    """Checks that declare TRACE_STRIDE = {tier: k}: every k-th shard is run once more with logging enabled down to TRACE."""
+    stride = (getattr(chk, "TRACE_STRIDE", None) or {}).get(tier)
+    picked = list(getattr(chk, "TRACE_SHARDS", lambda t: [])(tier))        # shards a check names explicitly
+    if stride:
+        picked += [s for s in list(chk.shards(tier))[stride // 3::stride] if s not in picked]
+    return [("__trace__", s) for s in picked]
+
+
 def optimised_of(chk, tier):
     """Checks that declare OPTIMISED_STRIDE = {tier: k}: every k-th shard is run once more under python -O."""
     stride = (getattr(chk, "OPTIMISED_STRIDE", None) or {}).get(tier)
@@ -163,6 +211,8 @@ def _worker_run(shard):
             r = _run_chain(shard)
         elif shard and shard[0] == "__optimised__":
             r = _run_optimised(shard)
+        elif shard and shard[0] == "__trace__":
+            r = _run_traced(shard)
         else:
             r = _CHECK.run_shard(shard)
     except BaseException:
@@ -206,7 +256,7 @@ def run_check(cid, tier, jobs=None):
     logging.disable(logging.CRITICAL)
     repo.setup()
     chk = load_check(cid)
-    shards = list(chk.shards(tier)) + chains_of(chk, tier) + optimised_of(chk, tier)
+    shards = list(chk.shards(tier)) + chains_of(chk, tier) + optimised_of(chk, tier) + traced_of(chk, tier)
     random.Random(seed).shuffle(shards)
     shards.sort(key=lambda x: 0 if x and x[0] == "__chain__" else 1)      # the long tasks first
     jobs = jobs or int(os.environ.get("VERIF_JOBS", "0") or 0) or min(16, os.cpu_count() or 1)
